@@ -692,8 +692,17 @@ func (w *World) ApplyReq(e Event) (commit func()) {
 	case "req:removevoter":
 		rel, _ := w.Relayer()
 		if len(rel.Voters) > 0 {
-			a, _ := sdk.AccAddressFromBech32(rel.Voters[len(rel.Voters)-1])
-			el.NextRelayer.Removes = append(el.NextRelayer.Removes, &goattypes.RemoveVoterRequest{Voter: common.BytesToAddress(a)})
+			pick := []string{rel.Voters[len(rel.Voters)-1]}
+			switch e.Var {
+			case "first":
+				pick = []string{rel.Voters[0]}
+			case "two":
+				pick = []string{rel.Voters[0], rel.Voters[len(rel.Voters)-1]}
+			}
+			for _, v := range pick {
+				a, _ := sdk.AccAddressFromBech32(v)
+				el.NextRelayer.Removes = append(el.NextRelayer.Removes, &goattypes.RemoveVoterRequest{Voter: common.BytesToAddress(a)})
+			}
 		}
 		return func() {}
 	}
@@ -735,6 +744,12 @@ func (w *World) Run(b ABlock) *Result {
 		}
 	}
 	w.N.EL.ClearRequests()
+	defer func() {
+		// the execution layer emits each request once: with the block that is committed
+		if res.BlockResult != nil && res.Err == nil && res.Finalize != nil {
+			w.N.EL.ClearRequests()
+		}
+	}()
 	w.widOff, w.reqOff, w.seqOff = 0, 0, 0
 	w.prov = map[uint64]*sim.BtcBlock{}
 	var commits []func()
